@@ -146,9 +146,15 @@ pub(crate) fn cmd_validate_outbound(packet_text: &str) -> Result<String, String>
 }
 
 /// `validate.outint mps=.. mq=.. ra=.. wsa=.. sia=.. ssa=.. csei=.. skip=.. alias=.. | <packet>`
+///   `padpayload=<n>`: a PUBLISH gets a zero-filled payload of <n> bytes (sizes that cannot travel as text; the pages are never touched)
 pub(crate) fn cmd_validate_outbound_internal(args: &str, packet_text: &str) -> Result<String, String> {
     let (_, kv) = split_kv(args);
-    let packet = parse_packet(packet_text)?;
+    let mut packet = parse_packet(packet_text)?;
+    if let Some(n) = get_num::<usize>(&kv, "padpayload")? {
+        if let MqttPacket::Publish(publish) = &mut packet {
+            publish.payload = Some(vec![0u8; n]);
+        }
+    }
     let settings = settings_of(&kv)?;
     let mut connect_builder = ConnectOptions::builder();
     if let Some(sei) = get_num::<u32>(&kv, "csei")? {
